@@ -176,23 +176,32 @@ fn build(app: &AppD) -> ohkami::Ohkami {
         (0, None) => None,
         (1, None) => Some(Arc::new(JWT::<Value>::default("secret"))),
         (2, None) => Some(Arc::new(BasicAuth { username: "u", password: "p" })),
+        // a second kind of token for an inner application: same fang type, other header, other scheme name (so that it can be stacked on 1 or 2)
+        (3, None) => Some(Arc::new(admin_jwt())),
         (0, Some(t)) => Some(Arc::new(openapi::Tag(t))),
         (1, Some(t)) => Some(Arc::new((openapi::Tag(t), JWT::<Value>::default("secret")))),
+        (3, Some(t)) => Some(Arc::new((openapi::Tag(t), admin_jwt()))),
         (_, Some(t)) => Some(Arc::new((openapi::Tag(t), BasicAuth { username: "u", password: "p" }))),
         _ => None,
     };
     hook::assemble(fangs, items)
 }
 
+fn admin_jwt() -> JWT<Value> {
+    JWT::<Value>::default("admin-secret").get_token_by(|req| req.headers.get("X-Admin-Token"), openapi::SecurityScheme::Bearer("adminAuth", None))
+}
+
 thread_local! { static SPLIT_MOUNT_POINTS: std::cell::Cell<u64> = std::cell::Cell::new(0); }
 
 /// generate: the number of path params of the full route equals the signature's (the property's document claims are about declared
 /// params; routes with more template params than the handler declares are generated separately as `undeclared-template-param` cases)
-fn gen_app(rng: &mut Rng, next_app: &mut u32, next_h: &mut u32, depth: usize, prefix_params: usize, undeclared: bool, guarded: bool) -> AppD {
+fn gen_app(rng: &mut Rng, next_app: &mut u32, next_h: &mut u32, depth: usize, prefix_params: usize, undeclared: bool, guarded: u8) -> AppD {
     let id = *next_app;
     *next_app += 1;
     // one authentication fang per path at most (a request can carry one Authorization header)
-    let auth = if guarded { 0 } else { *rng.pick_weighted(&[(5, 0u8), (2, 1), (2, 2)]) };
+    // `guarded`: bit k = an application above carries auth kind k. Kinds 1 (JWT) and 2 (Basic) both read Authorization, so they are never
+    // stacked on each other; kind 3 (JWT in X-Admin-Token, scheme adminAuth) may sit below one of them: two schemes on one operation
+    let auth = if guarded == 0 { *rng.pick_weighted(&[(5, 0u8), (2, 1), (2, 2), (1, 3)]) } else if guarded & 0b1000 != 0 { 0 } else { *rng.pick_weighted(&[(2, 0u8), (1, 3)]) };
     let tag = if rng.chance(1, 3) { Some(*rng.pick(&["users", "items", "admin"])) } else { None };
     let mut routes: Vec<RouteD> = vec![];
     let names = ["items", "users", "search", "login", "a", "b", "health"];
@@ -231,7 +240,7 @@ fn gen_app(rng: &mut Rng, next_app: &mut u32, next_h: &mut u32, depth: usize, pr
         let mut prefix: Vec<(bool, String)> = vec![(false, rng.pick(&["api", "v1", "t"]).to_string())];
         if with_param { prefix.push((true, "tenant0".to_string())) }
         if !routes.iter().any(|r| r.segs.first() == prefix.first()) {
-            let mut sub = gen_app(rng, next_app, next_h, depth + 1, prefix_params + with_param as usize, undeclared, guarded || auth != 0);
+            let mut sub = gen_app(rng, next_app, next_h, depth + 1, prefix_params + with_param as usize, undeclared, guarded | if auth != 0 { 1 << auth } else { 0 });
             // every third static mount: the methods of the mount point itself are split over the two applications - the mounted one answers
             // some at its "/", the mounting one registers another at exactly the prefix (its routes come first in the tuple)
             // (only for mounted applications without fangs of their own: whose fangs guard a path that two applications share is C04's
@@ -268,7 +277,7 @@ fn flatten(app: &AppD, prefix: &[(bool, String)], auth: Vec<u8>, tags: Vec<&'sta
             out.push(json!({"method": METHODS[*m].to_lowercase(), "template": template, "route": lit(&full), "sig": sig, "handler": hid,
                 "template_params": full.iter().filter(|s| s.0).map(|s| s.1.clone()).collect::<Vec<_>>(), "param_types": s.params,
                 "query": s.query.iter().map(|(n, r, t)| json!({"name": n, "required": r, "type": t})).collect::<Vec<_>>(), "body": s.body, "codes": s.codes, "components": s.components,
-                "auth": auth.iter().map(|a| if *a == 1 { "jwtAuth" } else { "basicAuth" }).collect::<Vec<_>>(), "tags": tags}));
+                "auth": auth.iter().map(|a| match *a { 1 => "jwtAuth", 3 => "adminAuth", _ => "basicAuth" }).collect::<Vec<_>>(), "tags": tags}));
         }
     }
     for (p, sub) in &app.mounts {
@@ -287,7 +296,7 @@ pub fn run(args: &Args, rep: &mut Report) {
             let mut rng = Rng::derive(args.seed, 15, case);
             let undeclared = case % 8 == 7;
             let (mut na, mut nh) = (1u32, 1u32);
-            let app = gen_app(&mut rng, &mut na, &mut nh, 0, 0, undeclared, false);
+            let app = gen_app(&mut rng, &mut na, &mut nh, 0, 0, undeclared, 0);
             rep.count_n("mount_points_whose_methods_are_split_over_two_applications", SPLIT_MOUNT_POINTS.with(|c| c.replace(0)));
             let mut ops: Vec<Value> = vec![];
             flatten(&app, &[], vec![], vec![], &mut ops);
@@ -367,6 +376,10 @@ pub fn run(args: &Args, rep: &mut Report) {
                             hs.push(("Authorization", format!("Bearer {tok}")));
                         } else if schemes.iter().any(|s| s == "basicAuth") {
                             hs.push(("Authorization", "Basic dTpw".into()));
+                        }
+                        if schemes.iter().any(|s| s == "adminAuth") {
+                            let tok: String = JWT::<Value>::default("admin-secret").issue(json!({"sub": "probe-admin"})).into();
+                            hs.push(("X-Admin-Token", tok));
                         }
                         let hs2: Vec<(&str, &str)> = hs.iter().map(|(k, v)| (*k, v.as_str())).collect();
                         let bytes = web::build_request(&method.to_uppercase(), &format!("{filled}{q}"), &hs2, if media.is_some() { sample.as_bytes() } else { b"" });
